@@ -307,7 +307,37 @@ def run(repo: Repo, chk: Check, thorough: bool = False) -> None:
                f'`{norm(r)}` is reached only when self.{own_attr} is unset' if own_unset else
                f'`{norm(r)}` can be returned although the module declares its own __docformat__: a plaintext / epytext module inside a reStructuredText '
                'package is parsed as reST, its words become elements (raw html included)', repo.loc(getter.mod, r))
-    chk.require('R10.7', 1)
+    # ... and the package's format must be KNOWN when the docstrings of a module are parsed (module, class and property docstrings are parsed
+    # while the module is built, the result is kept): System.processModule handles an unprocessed package before it builds one of its modules.
+    # The order of the queue alone does not give that: a module imported by an earlier one is processed on demand, before its package.
+    pm = repo.func('pydoctor.model.System.processModule')
+    cfp = CFG(pm)
+    modp = pm.params()[1].arg
+    builds = [c for c in calls_in(pm) if call_name(c) in ('processModuleAST', 'parseFile', 'parseString', '_introspectThing')]
+    if not builds:
+        raise AnalysisError('R10.7: System.processModule no longer calls the AST builder')
+    from ..util import values_of as _values_of
+    def _is_parent(e: ast.AST) -> bool:
+        if isinstance(e, ast.Attribute) and e.attr == 'parent' and isinstance(e.value, ast.Name) and e.value.id == modp:
+            return True
+        return isinstance(e, ast.Name) and any(_is_parent(v) for v in _values_of(pm, e.id))
+    first = [c for c in calls_in(pm) if call_name(c) in ('processModule', 'getProcessedModule') and c.args and _is_parent(c.args[0])]
+    okp = False
+    for c in first:
+        outer = cfp.stmt_of(c)
+        q = getattr(outer, '_parent', None)
+        while q is not None and q is not pm.node:
+            if isinstance(q, ast.If):
+                outer = q
+            q = getattr(q, '_parent', None)
+        if all(cfp.dominates(outer, cfp.stmt_of(b)) and outer is not cfp.stmt_of(b) for b in builds):
+            okp = True
+    chk.ob('R10.7', 'pydoctor.model.System.processModule :: the package is processed before its modules', okp,
+           f'`{norm(first[0])}` precedes the builder call' if okp else
+           'nothing makes sure the package was processed: `a.py: from pkg.sub import K` listed before `pkg` processes pkg.sub on demand before '
+           'pkg/__init__.py, so `__docformat__ = "plaintext"` of the package is not known yet and the module and class docstrings of pkg.sub are parsed '
+           'with the default format - a `.. raw:: html` line of a plain-text docstring becomes a <script> element', pm.loc)
+    chk.require('R10.7', 2)
 
     # ------------------------------------------------------------------ R10.8
     # a catch-all handler that contains a rendering failure must not fail itself: when it hands a parameter of the enclosing function
